@@ -14,7 +14,7 @@ def array_consts(prog, pv, body, op):
     # promoted arrays are inlined by the provenance engine: collect const atoms of integer type in aggregate order
     # -> walk explicitly to keep the order
     def walk(b, o, depth=0):
-        if depth > 6:
+        if depth > 20:
             return None
         if o.kind == "const":
             c = o.const
@@ -23,6 +23,9 @@ def array_consts(prog, pv, body, op):
                 if pb is None:
                     return None
                 return walk_local(pb, 0, depth + 1)
+            if c.get("def") and c["def"] in prog.bodies:
+                # a named constant array (`const MAGIC: [u8; 3] = [..]`)
+                return walk_local(prog.bodies[c["def"]], 0, depth + 1)
             bs = parse_bytestr(c["val"])
             if bs is not None:
                 return list(bs)
@@ -32,7 +35,7 @@ def array_consts(prog, pv, body, op):
         return walk_local(b, o.place.local, depth + 1)
 
     def walk_local(b, l, depth):
-        if depth > 8:
+        if depth > 20:
             return None
         ds = pv.defs(b).get(l, [])
         if len(ds) != 1 or ds[0][0] != "assign":
@@ -74,7 +77,7 @@ def header_reader(prog, pv):
     magic = None
     magic_call = None
     for bi, t in b.calls():
-        if t.callee.trait == "std::cmp::PartialEq" and t.callee.method in ("eq", "ne") and len(t.args) == 2:
+        if (t.callee.trait == "std::cmp::PartialEq" and t.callee.method in ("eq", "ne") and len(t.args) == 2) or (t.callee.method == "starts_with" and "[u8]" in (t.callee.name or "") + (t.callee.def_args or "") and len(t.args) == 2):
             for a in t.args:
                 v = array_consts(prog, pv, b, a)
                 if v:
@@ -212,7 +215,7 @@ def const_variant(prog, pv, body, op):
     seen = set()
 
     def walk(b, o, depth=0):
-        if depth > 6:
+        if depth > 20:
             return None
         if o.kind == "const":
             c = o.const
@@ -226,7 +229,7 @@ def const_variant(prog, pv, body, op):
         return walk_local(b, o.place.local, depth + 1)
 
     def walk_local(b, l, depth):
-        if depth > 8:
+        if depth > 20:
             return None
         ds = pv.defs(b).get(l, [])
         if len(ds) != 1 or ds[0][0] != "assign":
